@@ -4,16 +4,15 @@ from __future__ import annotations
 import math
 from typing import Any, Dict, List
 
-from .indic_vals import (D, NA, NAN, Undecided, binop, unop, phi, mk, hid, broadcast, map1, fold)
+from .indic_vals import (D, NA, NAN, Undecided, binop, unop, phi, mk, hid, broadcast, map1, fold,
+                         Builtin, BoundMethod, NTClass, NT, PyRaise)
 
 
 def B(fn, name=""):
-    from .indic import Builtin
     return Builtin(fn, name)
 
 
 def BM(fn):
-    from .indic import BoundMethod
     return BoundMethod(fn)
 
 
@@ -81,7 +80,6 @@ def getitem(it, base, key):
             try:
                 return base.data[i]
             except IndexError:
-                from .indic import PyRaise
                 raise PyRaise("IndexError")
         # 2-D
         if isinstance(key, tuple) and len(key) == 2:
@@ -98,7 +96,7 @@ def getitem(it, base, key):
             return NA([list(r) for r in base.data[_norm_slice(key)]], 2)
         if isinstance(key, NA):
             raise Undecided("mask on 2-D array")
-        return NA(list(base.data[_int(key, "row")]), 1)
+        return NA(base.data[_int(key, "row")], 1)      # row view (writes go through, as in numpy)
     if isinstance(base, (list, tuple, str, range)):
         if isinstance(key, slice):
             return base[_norm_slice(key)]
@@ -107,10 +105,8 @@ def getitem(it, base, key):
         if isinstance(key, D):
             raise Undecided("data-dependent dict key")
         if key not in base:
-            from .indic import PyRaise
             raise PyRaise("KeyError")
         return base[key]
-    from .indic import NT
     if isinstance(base, NT):
         return base.vals[_int(key)]
     raise Undecided(f"subscript of {type(base).__name__}")
@@ -126,12 +122,10 @@ def setitem(it, base, key, v):
                     if len(vals) == 1 and len(idx) != 1:
                         vals = vals * len(idx)
                     if len(vals) != len(idx):
-                        from .indic import PyRaise
                         raise PyRaise(f"ValueError: could not broadcast {len(vals)} values into {len(idx)} slots")
                 elif isinstance(v, (list, tuple)):
                     vals = list(v)
                     if len(vals) != len(idx):
-                        from .indic import PyRaise
                         raise PyRaise("ValueError: broadcast")
                 else:
                     vals = [v] * len(idx)
@@ -151,7 +145,15 @@ def setitem(it, base, key, v):
                         raise Undecided("masked store of an array under an abstract mask")
                     base.data = [phi(k, v, x) if isinstance(k, D) else (v if k else x) for k, x in zip(key.data, base.data)]
                     return
-                raise Undecided("fancy-index store")
+                if not any(isinstance(k, D) for k in key.data):
+                    idx = [_int(k) for k in key.data]
+                    vals = v.flat() if isinstance(v, NA) else [v] * len(idx)
+                    if len(vals) != len(idx):
+                        raise PyRaise("ValueError: shape mismatch in fancy-index store")
+                    for i, x in zip(idx, vals):
+                        base.data[i] = x
+                    return
+                raise Undecided("fancy-index store with data-dependent indices")
             i = _int(key, "index")
             if isinstance(v, NA):
                 f = v.flat()
@@ -161,7 +163,6 @@ def setitem(it, base, key, v):
             try:
                 base.data[i] = v
             except IndexError:
-                from .indic import PyRaise
                 raise PyRaise("IndexError")
             return
         # 2-D stores
@@ -500,7 +501,9 @@ def np_where(it, args, kw):
 
 
 def np_clip(it, args, kw):
-    a, lo, hi = args[0], args[1], args[2]
+    a = args[0]
+    lo = args[1] if len(args) > 1 else kw.get("a_min", kw.get("min"))
+    hi = args[2] if len(args) > 2 else kw.get("a_max", kw.get("max"))
     r = a
     if lo is not None:
         r = broadcast("max", r, lo)
@@ -547,12 +550,13 @@ def accumulate(op):
 def np_diff(it, args, kw):
     a = to_na(args[0])
     n = _int(kw.get("n", args[1] if len(args) > 1 else 1))
-    d = a.data
+    d = list(a.data)
+    if kw.get("prepend") is not None:
+        d = list(to_na(kw["prepend"]).data) + d
+    if kw.get("append") is not None:
+        d = d + list(to_na(kw["append"]).data)
     for _ in range(n):
         d = [binop("sub", d[i + 1], d[i]) for i in range(len(d) - 1)]
-    pre = kw.get("prepend")
-    if pre is not None:
-        raise Undecided("np.diff prepend")
     return NA(d, 1)
 
 
@@ -627,7 +631,6 @@ def sliding_window_view(it, args, kw):
     if a.ndim != 1:
         raise Undecided("sliding_window_view on 2-D")
     if w > n:
-        from .indic import PyRaise
         raise PyRaise("ValueError: window larger than array")
     return NA([a.data[i:i + w] for i in range(n - w + 1)], 2)
 
@@ -694,6 +697,75 @@ def lfilter(it, args, kw):
     return NA(y, 1)
 
 
+def filter1d(op):
+    """scipy.ndimage.maximum_filter1d / minimum_filter1d (mode='reflect')"""
+    def f(it, args, kw):
+        a = to_na(args[0])
+        size = _int(kw.get("size", args[1] if len(args) > 1 else None))
+        origin = _int(kw.get("origin", 0))
+        mode = kw.get("mode", "reflect")
+        n = len(a.data)
+        out = []
+        for i in range(n):
+            start = i - size // 2 - origin
+            xs = []
+            for k in range(start, start + size):
+                j = k
+                if mode == "reflect":
+                    while j < 0 or j >= n:
+                        j = -j - 1 if j < 0 else 2 * n - 1 - j
+                elif mode == "nearest":
+                    j = min(max(j, 0), n - 1)
+                else:
+                    raise Undecided(f"filter1d mode {mode}")
+                xs.append(a.data[j])
+            out.append(fold(op, xs))
+        return NA(out, 1)
+    return f
+
+
+def functools_reduce(it, args, kw):
+    f, xs = args[0], it.iterate(args[1])
+    acc_set = len(args) > 2
+    acc = args[2] if acc_set else None
+    for x in xs:
+        if not acc_set:
+            acc, acc_set = x, True
+            continue
+        acc = it.call(f, [acc, x], {})
+    return acc
+
+
+def opaque_all(name):
+    """result depends on every element of every array argument (structure opaque)"""
+    def f(it, args, kw):
+        elems = []
+        for a in args:
+            if isinstance(a, NA):
+                elems += list(a.flat())
+            elif isinstance(a, (list, tuple)):
+                elems += list(to_na(a).flat())
+            else:
+                elems.append(a)
+        return mk(name, *elems)
+    return f
+
+
+def np_lstsq(it, args, kw):
+    a, b = to_na(args[0]), to_na(args[1])
+    d = mk("lstsq", *a.flat(), *b.flat())
+    ncols = a.shape[1] if a.ndim == 2 else 1
+    sol = NA([mk("lstsq_coef", d, j) for j in range(ncols)], 1)
+    return (sol, NA([mk("lstsq_res", d)], 1), ncols, NA([mk("lstsq_sv", d, j) for j in range(ncols)], 1))
+
+
+def np_matmul(it, args, kw):
+    a, b = to_na(args[0]), to_na(args[1])
+    if a.ndim == 2 and b.ndim == 2:
+        return NA([[fold("add", [binop("mul", a.data[i][k], b.data[k][j]) for k in range(a.shape[1])], 0.0) for j in range(b.shape[1])] for i in range(a.shape[0])], 2)
+    return np_dot(it, args, kw)
+
+
 def np_isscalar(it, args, kw):
     return not isinstance(args[0], (NA, list, tuple))
 
@@ -743,7 +815,6 @@ def same_length(it, args, kw):
     big, short = to_na(args[0]), to_na(args[1])
     k = len(big.data) - len(short.data)
     if k < 0:
-        from .indic import PyRaise
         raise PyRaise("ValueError: negative dimensions")
     return NA([NAN] * k + list(short.data), 1)
 
@@ -766,7 +837,6 @@ def slice_candles(it, args, kw):
 
 
 def namedtuple_(it, args, kw):
-    from .indic import NTClass
     fields = args[1]
     if isinstance(fields, str):
         fields = fields.replace(",", " ").split()
@@ -787,6 +857,10 @@ def na_attr(it, a: NA, attr: str):
         return NA([[a.data[i][j] for i in range(a.shape[0])] for j in range(a.shape[1])], 2)
     if attr == "dtype":
         return "float64"
+    if attr == "strides":
+        return (8,) if a.ndim == 1 else (8 * a.shape[1], 8)
+    if attr == "itemsize":
+        return 8
     if attr == "copy":
         return BM(lambda i, ar, k: a.copy())
     if attr == "astype":
@@ -887,7 +961,6 @@ def b_len(it, args, kw):
     v = args[0]
     if isinstance(v, NA):
         return len(v.data)
-    from .indic import NT
     if isinstance(v, NT):
         return len(v.vals)
     return len(v)
@@ -901,7 +974,6 @@ def b_minmax(op):
     def f(it, args, kw):
         xs = list(args[0].flat()) if len(args) == 1 and isinstance(args[0], NA) else (list(args[0]) if len(args) == 1 else list(args))
         if not xs:
-            from .indic import PyRaise
             raise PyRaise("ValueError: empty")
         # python's min/max (NaN handling differs from numpy's, but dependence is the same)
         if not any(isinstance(x, D) for x in xs):
@@ -1005,7 +1077,7 @@ def _init_builtins():
         "reversed": B(lambda it, a, k: list(reversed(it.iterate(a[0]))), "reversed"), "dict": B(lambda it, a, k: dict(*a, **k), "dict"),
         "type": B(lambda it, a, k: B(None, type(a[0]).__name__ if not isinstance(a[0], NA) else "ndarray"), "type"),
         "pow": B(lambda it, a, k: binop("pow", a[0], a[1]), "pow"), "divmod": B(lambda it, a, k: (binop("floordiv", a[0], a[1]), binop("mod", a[0], a[1])), "divmod"),
-        "True": True, "False": False, "None": None,
+        "True": True, "False": False, "None": None, "object": B(None, "object"),
         "ValueError": B(_exc("ValueError"), "ValueError"), "TypeError": B(_exc("TypeError"), "TypeError"), "Exception": B(_exc("Exception"), "Exception"),
         "NotImplementedError": B(_exc("NotImplementedError"), "NotImplementedError"), "IndexError": B(_exc("IndexError"), "IndexError"),
         "slice": B(lambda it, a, k: slice(*a), "slice"), "map": B(lambda it, a, k: [it.call(a[0], [x], {}) for x in it.iterate(a[1])], "map"),
@@ -1061,6 +1133,16 @@ def _init_ext():
             EXT[m + k] = ew1(op)
         EXT[m + "pow"] = ew2("pow")
         EXT[m + "atan2"] = ew2("atan2")
+    EXT["scipy.ndimage.maximum_filter1d"] = filter1d("max")
+    EXT["scipy.ndimage.minimum_filter1d"] = filter1d("min")
+    EXT["functools.reduce"] = functools_reduce
+    EXT["operator.mul"] = lambda it, a, k: binop("mul", a[0], a[1])
+    EXT["operator.add"] = lambda it, a, k: binop("add", a[0], a[1])
+    for nm in ("kurtosis", "skew", "median_abs_deviation", "iqr"):
+        EXT["scipy.stats." + nm] = opaque_reduce(nm)
+    EXT["numpy.linalg.lstsq"] = np_lstsq
+    EXT["numpy.linalg.inv"] = lambda it, a, k: map1(lambda x: mk("inv", *to_na(a[0]).flat(), hid(x)), to_na(a[0]))
+    EXT["numpy.matmul"] = np_matmul
     EXT["scipy.signal.lfilter"] = lfilter
     EXT["scipy.signal.signal.lfilter"] = lfilter
     EXT["collections.namedtuple"] = namedtuple_
